@@ -3,7 +3,7 @@
 INIT Init
 NEXT SimNext
 CONSTANTS
-  MaxBufs = 4
+  MaxBufs = 7
   Caps = {0, 4096, 8192}
   WSizes = {1, 96, 100, 4000, 4096, 4097, 5000}
   RSizes = {1, 96, 100, 4000, 4096}
